@@ -144,9 +144,10 @@ class RF24MeshNoMaster(NetworkMixin):
 
     def _lookup_2_master(self, number: int, lookup_type: int) -> int:
         """Returns False if timed out, otherwise lookup result"""
-        self.frame_buf.header.to_node = 0
+        # a new header gives every request its own frame_id; identical consecutive frames
+        # can be mistaken for a re-transmission and dropped by the receiving radio
+        self.frame_buf.header = RF24NetworkHeader(0, lookup_type)
         self.frame_buf.header.from_node = self._addr
-        self.frame_buf.header.message_type = lookup_type
         if lookup_type == MESH_ID_LOOKUP:
             self.frame_buf.message = struct.pack("<H", number)
         else:
